@@ -618,6 +618,14 @@ impl Table {
         self.metadata.key_range.overlaps_with_bounds(bounds)
     }
 
+    /// `(min, max)` stored sequence numbers (without the global seqno shift).
+    #[cfg(feature = "verif")]
+    #[must_use]
+    #[doc(hidden)]
+    pub fn verif_stored_seqnos(&self) -> (SeqNo, SeqNo) {
+        self.metadata.seqnos
+    }
+
     /// Returns the highest sequence number in the table.
     #[must_use]
     pub fn get_highest_seqno(&self) -> SeqNo {
